@@ -75,6 +75,13 @@ pub fn jobs(tier: Tier) -> Vec<Job> {
     let mut v = Vec::new();
     let spec = SpecId::CANCUN;
     let ds = drivers(spec);
+    // speculation reading the shared cache while ordered commit applies, publishes and releases
+    for c in [blocks::nonce_chain(spec, 3), blocks::incr_same_slot(spec, 3), blocks::coinbase_reader_after_payers(spec)] {
+        let mut run = RunCfg::parallel(2);
+        run.slow_db = true;
+        v.push(commit_job("c02-commit", &c, &run, FOCUS_COMMIT, if tier == Tier::Quick { 3 } else { 4 }, true));
+    }
+    v.push(commit_job("c02-commit", &blocks::funding_chain(spec, 2), &RunCfg::parallel(2), FOCUS_ATTEMPT, if tier == Tier::Quick { 4 } else { 5 }, true));
     match tier {
         Tier::Quick => {
             for c in &ds {
